@@ -325,6 +325,36 @@ fn main() {
             }
         }
     }
+    // IWO on real-valued objectives and spreads that are not powers of two: the best individual gets
+    // exactly max copies, the worst exactly min, everyone in between a number in [min, max], better never fewer
+    for k in 0..rep.tier.pick(3_000, 60_000) {
+        let size = 2 + rng.usize(7);
+        let vals: Vec<f64> = (0..size).map(|_| if rng.chance(0.5) { (rng.below(100) as f64) / 10.0 } else { rng.f64_in(-50.0, 50.0) }).collect();
+        let src: Vec<T> = vals.iter().enumerate().map(|(i, v)| (i as u32 + 1, v.to_bits())).collect();
+        let lo = rng.below(3) as u32;
+        let hi = lo + *rng.pick(&[1u32, 3, 5, 6, 7, 9, 10]);
+        rep.case();
+        rep.nontrivial(hash_of(&("iwo-real", k)));
+        let out = apply(iwo::DeterministicFitnessProportional::new::<TagP>(lo, hi).as_ref(), &below, &src, k as u64);
+        let Some(sel) = judge(&rep, "DeterministicFitnessProportional", &format!("min={lo} max={hi}"), &below, &src, k as u64, &out, &Expect::PerMember(lo as usize, hi as usize)) else { continue };
+        let copies = |m: &T| sel.iter().filter(|s| *s == m).count();
+        let (mn, mx) = (vals.iter().cloned().fold(f64::INFINITY, f64::min), vals.iter().cloned().fold(f64::NEG_INFINITY, f64::max));
+        if mn < mx {
+            for m in &src {
+                if (val(m) == mn && copies(m) != hi as usize) || (val(m) == mx && copies(m) != lo as usize) {
+                    rep.violation("DeterministicFitnessProportional:best-or-worst-gets-wrong-number-of-copies", json!({"objectives": vals, "member": (m.0, val(m)), "copies": copies(m), "min": lo, "max": hi}));
+                    break;
+                }
+            }
+            for a in &src {
+                for b in &src {
+                    if val(a) < val(b) && copies(a) < copies(b) {
+                        rep.violation("DeterministicFitnessProportional:worse-individual-gets-more-copies", json!({"objectives": vals, "min": lo, "max": hi}));
+                    }
+                }
+            }
+        }
+    }
     // selection pressure: frequencies
     let n_draws = rep.tier.pick(40_000u32, 200_000u32);
     let margin = 2.0 * ((2.0f64 / 1e-10).ln() / (2.0 * n_draws as f64)).sqrt();
